@@ -984,7 +984,15 @@ class Interp:
                 if isinstance(x, Inst) and x.cls is not None and not (x.native is not None and isinstance(x.native, BA)):
                     c, m = self.prog.find_method(x.cls, name)
                     if m is not None:
-                        return self.invoke(FuncRef(m, c.module, c), [x, y], {})
+                        r = self.invoke(FuncRef(m, c.module, c), [x, y], {})
+                        if not (isinstance(r, K) and r.v is NotImplemented):
+                            return r
+                        continue
+                    if any(name in k.class_attrs for k in self.prog.mro(x.cls)):
+                        # an operator bound by a class-level assignment (`__or__ = __ior__`)
+                        r = self.call(self.class_attr(x.cls, name, x), [y], {}, node)
+                        if not (isinstance(r, K) and r.v is NotImplemented):
+                            return r
         if t is ast.Mult:
             for x, y in ((a, b), (b, a)):
                 xb = x.native if isinstance(x, Inst) and isinstance(x.native, BA) and x.cls is None else x
@@ -1847,7 +1855,21 @@ class Interp:
     def st_AugAssign(self, st, fr):
         cur = self.ev(st.target, fr)
         v = self.ev(st.value, fr)
-        r = self.models.inplace(self, st.op, cur, v)
+        r = None
+        if isinstance(cur, Inst) and cur.cls is not None and not (cur.native is not None and isinstance(cur.native, BA)):
+            # the in-place operator of a package class (__ior__, __iadd__, ...), when it has one
+            dn = {ast.Add: 'add', ast.Sub: 'sub', ast.Mult: 'mul', ast.FloorDiv: 'floordiv', ast.Mod: 'mod', ast.LShift: 'lshift', ast.RShift: 'rshift',
+                  ast.BitAnd: 'and', ast.BitOr: 'or', ast.BitXor: 'xor', ast.Pow: 'pow', ast.Div: 'truediv', ast.MatMult: 'matmul'}.get(type(st.op))
+            name = f'__i{dn}__'
+            c, m = self.prog.find_method(cur.cls, name)
+            if m is not None:
+                r = self.invoke(FuncRef(m, c.module, c), [cur, v], {})
+            elif any(name in k.class_attrs for k in self.prog.mro(cur.cls)):
+                r = self.call(self.class_attr(cur.cls, name, cur), [v], {}, st)
+            if isinstance(r, K) and r.v is NotImplemented:
+                r = None
+        if r is None:
+            r = self.models.inplace(self, st.op, cur, v)
         if r is None:
             r = self.binop(st.op, cur, v, st)
         self.assign(st.target, r, fr)
